@@ -1,4 +1,5 @@
 import MpVerif.C18.Lemmas
+import MpVerif.C18.GenTie
 /-!
 # C18 — Expression equality is a structural equivalence consistent with hashing
 
@@ -99,6 +100,92 @@ theorem C18_total_partial (a b : E C) (hs : okC a = true ∨ okC b = true) :
 
 /-- No null dereference, at full strength (since the fix of `ExprComparator::VisitCall`). -/
 theorem C18_no_ub (a b : E C) : equalX N a b ≠ .ub := no_ub N a b
+
+/-! ## Tie to the source by translation (round 4)
+
+`lean/MpVerif/Gen/C18.lean` is regenerated on every run by `translators/gen_expr_c18.py` from clang's typed
+AST of the instantiated `src/expr.cc`: entry of `mp::Equal` / `std::hash<mp::Expr>`, the dispatch of all 71
+kinds through `BasicExprVisitor` to the terminal handler of `ExprComparator` / `ExprHasher`, the body of every
+loop-free handler (which fields are compared / hashed, in which order, through which primitive), the seed of
+`Hash(e)` and the arithmetic of `HashCombine`.  The theorems below say that the hand model `equalX` / `hashX`
+satisfies exactly the recursion equations of that generated description, so every theorem above is a theorem
+about the fixed point of the translated code; the four loop-carrying handlers are tied by their syntax trees. -/
+section gen
+open MpVerif.Gen.C18
+
+theorem C18_gen_hashCombine (s h : UInt64) : combine s h = hashCombine s h := rfl
+
+theorem C18_gen_equal_step (a b : E C) :
+    equalX N a b = equalStep N equalEntry cmpBody (equalX N) a b := by
+  cases a with
+  | num x => cases b <;> simp [equalX, equalStep, equalEntry, visitCmp, E.kind, cmpBody, conjSem, atomSem]
+  | ref k i =>
+    cases b with
+    | ref k' j =>
+      by_cases h : k = k'
+      · subst h; cases k <;> simp [equalX, equalStep, equalEntry, visitCmp, E.kind, cmpBody, conjSem, atomSem]
+      · simp [equalX, equalStep, equalEntry, E.kind, h]
+    | _ => simp [equalX, equalStep, equalEntry, E.kind]
+  | un k a =>
+    cases b with
+    | un k' b => exact gen_equal_step_diag_un N k k' a b
+    | _ => simp [equalX, equalStep, equalEntry, E.kind]
+  | bin k l r =>
+    cases b with
+    | bin k' l' r' => exact gen_equal_step_diag_bin N k k' l r l' r'
+    | _ => simp [equalX, equalStep, equalEntry, E.kind]
+  | ite k c t e =>
+    cases b with
+    | ite k' c' t' e' =>
+      by_cases h : k = k'
+      · subst h; cases k <;> simp [equalX, equalStep, equalEntry, visitCmp, E.kind, cmpBody, conjSem, atomSem, child]
+      · simp [equalX, equalStep, equalEntry, E.kind, h]
+    | _ => simp [equalX, equalStep, equalEntry, E.kind]
+  | pl sb last arg =>
+    cases b <;> simp [equalX, equalStep, equalEntry, visitCmp, E.kind, cmpBody, opaqueCmp]
+  | call f as =>
+    cases b <;> simp [equalX, equalStep, equalEntry, visitCmp, E.kind, cmpBody, opaqueCmp]
+  | iter k as =>
+    cases b with
+    | iter k' bs =>
+      by_cases h : k = k'
+      · subst h; cases k <;> simp [equalX, equalStep, equalEntry, visitCmp, E.kind, cmpBody, opaqueCmp, IterK.unsupported]
+      · simp [equalX, equalStep, equalEntry, E.kind, h]
+    | _ => simp [equalX, equalStep, equalEntry, E.kind]
+  | bool x => cases b <;> simp [equalX, equalStep, equalEntry, visitCmp, E.kind, cmpBody, conjSem, atomSem]
+  | str s => cases b <;> simp [equalX, equalStep, equalEntry, visitCmp, E.kind, cmpBody]
+
+theorem C18_gen_hash_step (a : E C) :
+    hashX P a = hashStep P hashEntry hashBody hashCombine hashSeed (hashX P) a := by
+  cases a with
+  | num v => simp [hashX, hashStep, hashEntry, hashBody, E.kind, chainSem, hashKind, hashSeed, ← C18_gen_hashCombine]
+  | ref k i => cases k <;> simp [hashX, hashStep, hashEntry, hashBody, E.kind, chainSem, hashKind, hashSeed, ← C18_gen_hashCombine]
+  | un k a =>
+    cases k <;> simp only [hashX, hashStep, hashEntry, hashBody, E.kind, chainSem, child, hashKind, hashSeed, ← C18_gen_hashCombine] <;>
+      cases hashX P a <;> rfl
+  | bin k l r =>
+    cases k <;> simp only [hashX, hashStep, hashEntry, hashBody, E.kind, chainSem, child, hashKind, hashSeed, ← C18_gen_hashCombine] <;>
+      cases hashX P l <;> cases hashX P r <;> rfl
+  | ite k c t e =>
+    cases k <;> simp only [hashX, hashStep, hashEntry, hashBody, E.kind, chainSem, child, hashKind, hashSeed, ← C18_gen_hashCombine] <;>
+      first | rfl | (cases hashX P c <;> cases hashX P t <;> cases hashX P e <;> simp)
+  | pl sb last arg =>
+    simp only [hashX, hashStep, hashEntry, hashBody, E.kind, opaqueHash]
+    cases hashX P arg <;> rfl
+  | call f as => simp [hashX, hashStep, hashEntry, hashBody, E.kind, opaqueHash]
+  | iter k as => cases k <;> simp [hashX, hashStep, hashEntry, hashBody, E.kind, opaqueHash, IterK.unsupported]
+  | bool v => simp [hashX, hashStep, hashEntry, hashBody, E.kind, chainSem, hashKind, hashSeed, ← C18_gen_hashCombine]
+  | str s => simp [hashX, hashStep, hashEntry, hashBody, E.kind, opaqueHash]
+
+theorem C18_gen_shape_cmp_VisitPLTerm : cmpShape_VisitPLTerm = Frozen.cmpShape_VisitPLTerm := rfl
+theorem C18_gen_shape_cmp_VisitCall : cmpShape_VisitCall = Frozen.cmpShape_VisitCall := rfl
+theorem C18_gen_shape_cmp_VisitVarArg : cmpShape_VisitVarArg = Frozen.cmpShape_VisitVarArg := rfl
+theorem C18_gen_shape_hash_VisitPLTerm : hashShape_VisitPLTerm = Frozen.hashShape_VisitPLTerm := rfl
+theorem C18_gen_shape_hash_VisitCall : hashShape_VisitCall = Frozen.hashShape_VisitCall := rfl
+theorem C18_gen_shape_hash_VisitVarArg : hashShape_VisitVarArg = Frozen.hashShape_VisitVarArg := rfl
+theorem C18_gen_shape_hash_VisitStringLiteral : hashShape_VisitStringLiteral = Frozen.hashShape_VisitStringLiteral := rfl
+
+end gen
 
 /-! ## Counterexamples (replayed against the real code by the check) -/
 
